@@ -181,6 +181,12 @@ class Capture:
                         path = cap.fs.writes[-1][1]
                         rec["csv_path"] = path
                         rec["csv_text"] = _read_text(path)
+                    elif cap.fs and title != "Untitled":
+                        import re as _re
+
+                        exp = os.path.join(m.ir.repo_root, "results", _re.sub(r'[\\/*?:"<>|\n]', "_", title) + "_ykcals.csv")
+                        rec["csv_expected_path"] = exp
+                        rec["csv_expected_text"] = _read_text(exp)
                 return out
 
             return interpret_results
